@@ -225,3 +225,106 @@ func VerifH_C06_wustream() {
 	vCover("C06.wustream.exactly-max", w+int64(inc) == 1<<31-1)
 	vCover("C06.wustream.negative", w < 0 && err == nil)
 }
+
+// Two responses of 12 bytes each wait on a connection window of 10 and on
+// stream windows that the client's SETTINGS fixed at 8; then three (quick) / four
+// (thorough) grants
+// arrive, each one of: connection WINDOW_UPDATE of 1, 5 or 20, WINDOW_UPDATE
+// of 3 on stream 1 or on stream 3, SETTINGS_INITIAL_WINDOW_SIZE raised to 11
+// or lowered to 2 (a negative window for a stream that has already sent
+// more). Through the real read loop and stream loop: after every step the
+// DATA bytes sent so far on each stream and on the connection are within what
+// has been granted, and everything the grants permit has been sent (no
+// response is left waiting with both its windows open); END_STREAM goes out
+// once per stream, with its last byte.
+//
+//verif:harness prop=C06 unwind=200 timeout=600
+func VerifH_C06_resume() {
+	s := vStartServer(8)
+	body := []byte("0123456789ab")
+	s.sc.h = func(ctx *fasthttp.RequestCtx) {
+		ctx.Response.SetStatusCode(200)
+		ctx.Response.SetBody(body)
+	}
+	s.sc.clientWindow = 10
+	// the client's SETTINGS: initial stream window 8
+	s.send(vFrame(0x4, 0x0, 0, []byte{0, 4, 0, 0, 0, 8}))
+	s.replies()
+	initial := int64(8)
+	connGrant := int64(10)
+	strmGrant := map[uint32]int64{1: 8, 3: 8}
+	sent := map[uint32]int64{}
+	ended := map[uint32]int{}
+	account := func(frames []*FrameHeader) {
+		before := map[uint32]int64{1: sent[1], 3: sent[3]}
+		for _, fr := range frames {
+			if d, ok := fr.Body().(*Data); ok {
+				vAssert(ended[fr.Stream()] == 0, "C06.resume.nothing-after-end-stream")
+				sent[fr.Stream()] += int64(len(d.Data()))
+				if d.EndStream() {
+					ended[fr.Stream()]++
+				}
+			}
+		}
+		// what went out in this step fits what was open when it went out (a
+		// SETTINGS decrease may leave a window negative; nothing is sent then)
+		room := func(grant, used int64) int64 {
+			if grant-used < 0 {
+				return 0
+			}
+			return grant - used
+		}
+		vAssert(sent[1]+sent[3]-before[1]-before[3] <= room(connGrant, before[1]+before[3]), "C06.resume.within-connection-window")
+		for _, id := range []uint32{1, 3} {
+			vAssert(sent[id]-before[id] <= room(strmGrant[id], before[id]), "C06.resume.within-stream-window")
+		}
+	}
+	s.send(vFrame(0x1, 0x5, 1, vReqBlock('1')))
+	account(s.replies())
+	s.send(vFrame(0x1, 0x5, 3, vReqBlock('3')))
+	account(s.replies())
+	for step := 0; step < vPick(3, 4); step++ {
+		switch vRange(0, 6) {
+		case 0:
+			connGrant++
+			s.send(vFrame(0x8, 0x0, 0, []byte{0, 0, 0, 1}))
+		case 1:
+			connGrant += 5
+			s.send(vFrame(0x8, 0x0, 0, []byte{0, 0, 0, 5}))
+		case 2:
+			connGrant += 20
+			s.send(vFrame(0x8, 0x0, 0, []byte{0, 0, 0, 20}))
+		case 3:
+			strmGrant[1] += 3
+			s.send(vFrame(0x8, 0x0, 1, []byte{0, 0, 0, 3}))
+		case 4:
+			strmGrant[3] += 3
+			s.send(vFrame(0x8, 0x0, 3, []byte{0, 0, 0, 3}))
+		case 5:
+			strmGrant[1] += 11 - initial
+			strmGrant[3] += 11 - initial
+			initial = 11
+			s.send(vFrame(0x4, 0x0, 0, []byte{0, 4, 0, 0, 0, 11}))
+		default:
+			strmGrant[1] += 2 - initial
+			strmGrant[3] += 2 - initial
+			initial = 2
+			s.send(vFrame(0x4, 0x0, 0, []byte{0, 4, 0, 0, 0, 2}))
+		}
+		account(s.replies())
+		// progress: no stream is left with bytes to send while both its window
+		// and the connection window are open
+		connLeft := connGrant - sent[1] - sent[3]
+		for _, id := range []uint32{1, 3} {
+			if ended[id] == 0 && sent[id] < 12 {
+				vAssert(connLeft <= 0 || strmGrant[id]-sent[id] <= 0, "C06.resume.sends-what-the-windows-allow")
+			}
+		}
+	}
+	for _, id := range []uint32{1, 3} {
+		vAssert(ended[id] <= 1 && (ended[id] == 1) == (sent[id] == 12), "C06.resume.end-stream-with-last-byte")
+	}
+	vPoolsSane("C06.resume")
+	vCover("C06.resume.one-done", ended[1] == 1 || ended[3] == 1)
+	vCover("C06.resume.negative-window", strmGrant[1] < sent[1])
+}
